@@ -148,6 +148,25 @@ def shape_brset(v):
   return d
 
 
+def shape_twop(v):
+  """two paragraphs in one region: p1 [b1, e1), p2 [b2, e2) -- [1, 2) when b2/e2 are not symbolic; p1 holds 'Hello' <br/> 'you', p2 'World'"""
+  from fractions import Fraction as F
+  d = m.ContentDocument()
+  r = m.Region("r1", d); d.put_region(r)
+  body = m.Body(d); body.set_id("b"); d.set_body(body)
+  div = m.Div(d); div.set_id("d"); body.push_child(div)
+  p = m.P(d); p.set_id("p1"); p.set_region(r); p.set_begin(v("b1")); p.set_end(v("e1")); div.push_child(p)
+  s = m.Span(d); s.set_id("s1"); p.push_child(s); s.push_child(m.Text(d, "Hello"))
+  br = m.Br(d); br.set_id("br"); p.push_child(br)
+  s3 = m.Span(d); s3.set_id("s3"); s3.set_style(SP.FontWeight, sp.FontWeightType.bold); p.push_child(s3); s3.push_child(m.Text(d, "you"))
+  b2, e2 = v("b2"), v("e2")
+  if b2 is None and e2 is None:
+    b2, e2 = F(1), F(2)
+  p2 = m.P(d); p2.set_id("p2"); p2.set_region(r); p2.set_begin(b2); p2.set_end(e2); div.push_child(p2)
+  s2 = m.Span(d); s2.set_id("s2"); p2.push_child(s2); s2.push_child(m.Text(d, "World"))
+  return d
+
+
 def shape_rubyparts(v):
   """rubies whose parts have their own timing (an annotation that is temporarily inactive), an rtc with delimiters, a part in another region"""
   nid = _ids()
@@ -181,9 +200,10 @@ def shape_rubyparts(v):
   return d
 
 
-SHAPES = {"brset": shape_brset, "rubyparts": shape_rubyparts, "ruby": shape_ruby, "nested": shape_nested, "regions": shape_regions, "display": shape_display, "background": shape_background}
+SHAPES = {"twop": shape_twop, "brset": shape_brset, "rubyparts": shape_rubyparts, "ruby": shape_ruby, "nested": shape_nested, "regions": shape_regions, "display": shape_display, "background": shape_background}
 # which of the timing variables are present (None otherwise); a few masks per shape keep the path count moderate
 MASKS = {
+  "twop": [("b1", "e1"), ("e1", "b2"), ("b1", "e2")],
   "brset": [("pb", "pe", "ab", "ae"), ("ab", "ae"), ("pe", "ab")],
   "rubyparts": [("rtb", "rte", "pb"), ("rbb", "rbe", "rtb"), ("rtcb", "rtce", "rt2b"), ("rp1e", "rt2b", "rt2e"), ("pe", "rte", "rbe", "rtce")],
   "nested": [("bb", "be", "pb", "pe"), ("db", "de", "s1b", "s1e"), ("pb", "pe", "s3b", "s3e"), ("be", "de", "pe", "s1e", "s3e"), ("bb", "db", "pb", "s1b", "s3b"),
